@@ -27,6 +27,7 @@ pub struct Cfg {
     /// 0: protocol features negotiated, all rings started, then enabled.  1: legacy front end (no protocol features):
     /// the upper half of the rings is started, then SET_FEATURES enables everything, then the lower half is started.
     /// 2: protocol features, odd rings enabled before they are started.
+    /// 3: like 0, then every running ring gets a new kick descriptor (SET_VRING_KICK on a started ring).
     #[serde(default)]
     pub mode: u8,
 }
@@ -121,19 +122,34 @@ fn setup_other_order(cfg: &Cfg) -> Result<(Fx<VRw>, RawClient, Vec<EventFd>), St
 pub fn run_cfg(ctx: &mut Ctx, cfg: &Cfg) -> Result<(), String> {
     let n = cfg.num_queues as usize;
     let base_threads = thread_count();
-    let (mut fx, cl, kicks) = if cfg.mode == 0 { setup(cfg)? } else { setup_other_order(cfg)? };
+    let (fx, cl, kicks) = if cfg.mode == 0 || cfg.mode == 3 { setup(cfg)? } else { setup_other_order(cfg)? };
+    let (mut fx, cl, mut kicks) = (fx, cl, kicks);
+    if cfg.mode == 0 || cfg.mode == 3 {
+        for q in 0..n {
+            let a = cl.ack(fe::SET_VRING_ENABLE, &spec::b_vring_state(q as u32, 1), &[]).map_err(|e| format!("enable {q}: {e}"))?;
+            if a != 0 {
+                return Err(format!("SET_VRING_ENABLE({q},1) refused"));
+            }
+        }
+    }
     if cfg.mode != 0 {
-        ctx.class(if cfg.mode == 1 { "order_legacy_features_between_starts" } else { "order_enable_before_start" });
+        ctx.class(match cfg.mode {
+            1 => "order_legacy_features_between_starts",
+            2 => "order_enable_before_start",
+            _ => "kick_descriptor_replaced_while_running",
+        });
     }
-    for q in 0..n {
-        if cfg.mode != 0 {
-            break;
-        }
-        let a = cl.ack(fe::SET_VRING_ENABLE, &spec::b_vring_state(q as u32, 1), &[]).map_err(|e| format!("enable {q}: {e}"))?;
-        if a != 0 {
-            return Err(format!("SET_VRING_ENABLE({q},1) refused"));
+    if cfg.mode == 3 {
+        // every running ring gets a new kick descriptor; the routing of the new descriptor is what is checked below
+        for q in 0..n {
+            let e = new_eventfd();
+            if cl.ack(fe::SET_VRING_KICK, &spec::b_u64(q as u64), &[e.as_raw_fd()]).map_err(|e| format!("replace kick {q}: {e}"))? != 0 {
+                return Err(format!("SET_VRING_KICK({q}) on a running ring refused"));
+            }
+            kicks[q] = e;
         }
     }
+
     fx.barrier()?;
     let mut seen = fx.be.event_count();
     if seen != 0 {
@@ -318,7 +334,7 @@ pub fn run(ctx: &mut Ctx) {
     let cases = ctx.tier.pick(1500u32, 60_000u32);
     let strat = (1u8..=6, 1usize..=3).prop_flat_map(|(n, t)| {
         let lim = 1u64 << (n + 2);
-        (Just(n), proptest::collection::vec(0..lim, t..=t), prop_oneof![2 => Just(0u8), 1 => Just(1u8), 1 => Just(2u8)])
+        (Just(n), proptest::collection::vec(0..lim, t..=t), prop_oneof![2 => Just(0u8), 1 => Just(1u8), 1 => Just(2u8), 1 => Just(3u8)])
     }).prop_map(|(n, masks, mode)| Cfg { num_queues: n, masks, mode });
     ctx.prop_check("sampled_configs", cases, strat, |ctx, c| run_cfg(ctx, c));
 
